@@ -19,6 +19,7 @@ const (
 func (state *inflate) setupStaticHeader() {
 	state.litLenTable = staticLitHuffCode
 	state.distTable = staticDistHuffCode
+	state.staticBlock = true
 	state.phase = phaseHeaderDecoded
 }
 
@@ -111,6 +112,7 @@ func (state *inflate) setupDynamicHeader() error {
 		return err
 	}
 	state.litLenTable.genForLitLen(ctx, multisym)
+	state.staticBlock = false
 
 	state.phase = phaseHeaderDecoded
 	return nil
